@@ -1051,3 +1051,102 @@ func limitFamily(seed int64, n int) []Scenario {
 	}
 	return out
 }
+
+// ---------------------------------------------------------------- family "reent" (C18): listeners and callbacks that call Send / Close
+
+var reentEvents = []string{"connection", "packetCreate", "flush", "drain", "srv.flush", "srv.drain", "packet", "message", "heartbeat", "upgrading", "upgrade", "close", "cb"}
+
+func reentScenario(name, event, api, kind string) Scenario {
+	return Scenario{Name: name, Run: func(t *testing.T, rec *Rec, g *Gates) {
+		cfg := EngCfg{PI: 2 * time.Second, PT: time.Second, UT: 3 * time.Second}
+		w := newEngWorld(t, rec, g, cfg)
+		sc := &Script{w: w, r: rand.New(rand.NewSource(1)), cfg: cfg, W: map[string]int{}}
+		fired := false
+		w.Hook(event, func(sid string, _ ...any) {
+			if fired {
+				return
+			}
+			fired = true
+			rec.Log("reent", "sid", sid, "event", event, "api", api)
+			switch api {
+			case "send":
+				w.Send(sid, SendOpt{Size: 5, Cb: true})
+			case "close":
+				w.Cause(sid, "app")
+				w.Close(sid, false)
+			case "closenow":
+				w.Cause(sid, "app")
+				w.Close(sid, true)
+			}
+		})
+		var c *cliSess
+		if kind == "websocket" {
+			s := &Sess{Proto: 4}
+			c = &cliSess{S: s, Kind: "websocket", autoPong: true}
+			c.ws = w.DialWS(s, "", nil, func(wc *WSClient, p Pkt) { sc.processPkts(c, []Pkt{p}, wc) })
+		} else {
+			s, _ := w.Handshake(4, false, false, ReqOpt{})
+			c = &cliSess{S: s, Kind: "polling", autoPong: true}
+		}
+		sc.ss = append(sc.ss, c)
+		sc.settle()
+		if c.S.Sid == "" {
+			w.Finish()
+			return
+		}
+		sid := c.S.Sid
+		// exercise every event source
+		go w.Send(sid, SendOpt{Size: 4, Cb: true})
+		sc.settle()
+		sc.doPoll(c)
+		sc.settle()
+		if c.Kind == "polling" {
+			c.posts = append(c.posts, w.Post(c.S, []Pkt{w.ClientMsg(4, false, 0)}, ReqOpt{}))
+		} else {
+			c.ws.SendPkt(w.ClientMsg(4, false, 0))
+		}
+		sc.settle()
+		go w.Send(sid, SendOpt{Size: 4, Cb: true})
+		sc.settle()
+		sc.doPoll(c)
+		sc.sleepAlive(cfg.PI + 100*time.Millisecond) // a ping and its pong (heartbeat event)
+		sc.doPoll(c)
+		sc.settle()
+		if c.Kind == "polling" && (event == "upgrading" || event == "upgrade" || event == "close" || event == "cb" || event == "flush" || event == "drain") {
+			cand := w.DialWS(c.S, "", nil, nil)
+			sc.settle()
+			cand.SendPkt(Pkt{Type: "ping", Data: []byte("probe")})
+			sc.settle()
+			sc.w.g.Sleep(150 * time.Millisecond)
+			sc.settle()
+			if c.poll == nil || c.poll.Status != 0 {
+				cand.SendPkt(Pkt{Type: "upgrade"})
+				sc.settle()
+				if so := w.Sock(sid); so != nil && so.Upgraded() {
+					c.Kind, c.ws = "websocket", cand
+					cand.OnPkt = func(wc *WSClient, p Pkt) { sc.processPkts(c, []Pkt{p}, wc) }
+				}
+			}
+		}
+		go w.Send(sid, SendOpt{Size: 4, Cb: true})
+		sc.settle()
+		if event == "close" {
+			go w.Close(sid, false)
+			sc.settle()
+		}
+		sc.Drain()
+		w.Finish()
+	}}
+}
+
+func reentFamily() []Scenario {
+	var out []Scenario
+	for _, ev := range reentEvents {
+		for _, api := range []string{"send", "close", "closenow"} {
+			for _, kind := range []string{"polling", "websocket"} {
+				out = append(out, reentScenario(fmt.Sprintf("reent_%s_%s_%s", ev, api, kind), ev, api, kind))
+			}
+		}
+	}
+	return out
+}
